@@ -566,9 +566,21 @@ impl<'a> World<'a> {
                 && !self.rep.violations.iter().any(|v| v.rule == "capacity.exceeded")
             {
                 let burst = self.burst_admissions > 0;
+                // keys removed (pruned) while a write of them was parked and re-listed by the late acknowledgement
+                // (the recorded C01 finding): the excess is explained only if it is no larger than their number
+                let relisted = (0..self.keys.len())
+                    .filter(|i| self.indexed[*i] && self.keys[*i].race == Some("remove_while_write_in_flight") && matches!(self.keys[*i].expect, Expect::Absent))
+                    .count();
+                let shape = if burst {
+                    "after_burst_of_unacknowledged_writes"
+                } else if relisted > 0 && held - relisted <= self.plan.capacity + in_flight as usize {
+                    "pruned_key_relisted_by_late_write_acknowledgement"
+                } else {
+                    "other"
+                };
                 self.viol(
                     "capacity.exceeded",
-                    &[("shape", if burst { "after_burst_of_unacknowledged_writes".into() } else { "other".into() })],
+                    &[("shape", shape.into())],
                     format!("{held} records held > capacity {} + {} writes in flight", self.plan.capacity, in_flight),
                 );
             }
